@@ -40,6 +40,7 @@ let ity_of = function
 type kind = { ops : bool -> (z, z option) c16_ops; rep : int -> z; unrep : z -> int; lo : int; n : int;
               two : bool; value : int -> string; always : bool; nplus : bool; conv : bool; arrow : bool }
 
+let rec iter f n x = if n <= 0 then x else iter f (n - 1) (f x)
 let contents n = List.init n (fun p -> z_of_int (1000 + p))
 let kind_of (ks : string) (n : int) : kind =
   let kp = String.split_on_char ':' ks in
@@ -65,7 +66,7 @@ let kind_of (ks : string) (n : int) : kind =
   | "ir" ->
       let t = ity_of (List.nth kp 1) in
       let from = z_of_string (List.nth kp 2) in
-      { ops = (fun _ -> c16_ir_ops t true);          (* the model is the code after fixes/C16-1.patch *)
+      { ops = (fun _ -> c16_ir_ops_src t);           (* comparison tokens as re-read from the source (Params_gen.v) *)
         rep = (fun p -> c16_ir_rep t from (z_of_int p)); unrep = (fun x -> int_of_z (c16_ir_unrep t from x));
         lo = (if Z.ltb (c16_tmin t) from then -1 else 0); n; two = false;
         value = (fun p -> string_of_z (Z.add from (z_of_int p))); always = true; nplus = true; conv = true; arrow = false }
@@ -83,7 +84,7 @@ let ptok (k : kind) (o : (z, z option) c16_ops) (r : z) : string =
 let spec_ptok (k : kind) (p : int) : string =
   string_of_int p ^ ":" ^ (if k.always || (p >= 0 && p < k.n) then k.value p else "-")
 
-let cmp6 (o : (z, 'v) c16_ops) a b =
+let cmp6 o a b =
   bits [o.c16_o_eq a b; o.c16_o_ne a b; o.c16_o_lt a b; o.c16_o_le a b; o.c16_o_gt a b; o.c16_o_ge a b] ^ ":" ^ string_of_z (o.c16_o_diff a b)
 let spec6 i j = bits (c16_spec_cmp (z_of_int i) (z_of_int j)) ^ ":" ^ string_of_z (c16_spec_diff (z_of_int i) (z_of_int j))
 let spec2 i j = String.sub (bits (c16_spec_cmp (z_of_int i) (z_of_int j))) 0 2
@@ -95,22 +96,34 @@ let spec2 i j = String.sub (bits (c16_spec_cmp (z_of_int i) (z_of_int j))) 0 2
 let combos_conv_all = [ ("mm", true); ("mc", true); ("cm", true); ("cc", true) ]
 let combos = [ ("mm", true); ("mc", false); ("cm", true); ("cc", true) ]
 
+(* DenseIterator / GenericIterator store the container pointer: compare through the container-tagged primitives *)
+let tagged_prims ks n =
+  let xs = contents n in
+  match List.hd (String.split_on_char ':' ks) with
+  | "dyn" | "fv" | "fmrow" -> Some (c16_tag_prims (c16_dense_prims xs), (fun c p -> (z_of_int c, c16_dense_rep (z_of_int p))))
+  | "gen" -> Some (c16_tag_prims (c16_generic_prims xs), (fun c p -> (z_of_int c, z_of_int p)))
+  | _ -> None
 let do_cmp ks n i j =
   let k = kind_of ks n in
   if i < k.lo || j < k.lo || i > n || j > n then ("BADCASE", "BADCASE") else
+  match tagged_prims ks n with
+  | Some (tp, trep) ->
+      String.concat " " (List.map (fun (nm, conv) -> nm ^ "=" ^ cmp6 (c16_legacy_ops tp conv) (c16_convert (trep 1 i)) (trep 1 j)) combos_conv_all),
+      String.concat " " (List.map (fun (nm, _) -> nm ^ "=" ^ spec6 i j) combos_conv_all)
+  | None ->
   let cs = if not k.two then [ ("mm", true) ] else if String.length ks >= 2 && String.sub ks 0 2 = "al" then combos else combos_conv_all in
   String.concat " " (List.map (fun (nm, conv) -> nm ^ "=" ^ cmp6 (k.ops conv) (k.rep i) (k.rep j)) cs),
   String.concat " " (List.map (fun (nm, _) -> nm ^ "=" ^ spec6 i j) cs)
 
 let do_cmpx ks n i j =
-  let k = kind_of ks n in
+  match tagged_prims ks n with
+  | None -> ("BADCASE", "BADCASE")
+  | Some (tp, trep) ->
   String.concat " " (List.map (fun (nm, conv) ->
-      let o = k.ops conv in
-      let e = c16_same_container_eq false (o.c16_o_eq (k.rep i) (k.rep j)) in
-      nm ^ "=" ^ b01 e ^ b01 (not e)) combos),
+      let o = c16_legacy_ops tp conv in
+      nm ^ "=" ^ b01 (o.c16_o_eq (trep 1 i) (trep 2 j)) ^ b01 (o.c16_o_ne (trep 1 i) (trep 2 j))) combos),
   String.concat " " (List.map (fun (nm, _) -> nm ^ "=01") combos)
 
-let rec iter f n x = if n <= 0 then x else iter f (n - 1) (f x)
 
 let do_step ks n var i kk =
   let k = kind_of ks n in
@@ -131,38 +144,34 @@ let do_step ks n var i kk =
   add "back" (string_of_z (o.c16_o_diff (o.c16_o_plus it zk) it)) (string_of_int kk);
   if i + 1 <= n then add "incdec" (pt (o.c16_o_dec (o.c16_o_inc it))) (sp i) else add "incdec" "-" "-";
   if i - 1 >= k.lo then add "decinc" (pt (o.c16_o_inc (o.c16_o_dec it))) (sp i) else add "decinc" "-" "-";
-  if i + 1 <= n then add "postinc" (pt it ^ "/" ^ pt (o.c16_o_inc it)) (sp i ^ "/" ^ sp (i + 1)) else add "postinc" "-" "-";
-  if i - 1 >= k.lo then add "postdec" (pt it ^ "/" ^ pt (o.c16_o_dec it)) (sp i ^ "/" ^ sp (i - 1)) else add "postdec" "-" "-";
-  if k.nplus then add "nplus" (pt (o.c16_o_plus it zk)) (sp (i + kk));
+  let pair (a, b) = pt a ^ "/" ^ pt b in
+  if i + 1 <= n then add "postinc" (pair (c16_post_inc o it)) (sp i ^ "/" ^ sp (i + 1)) else add "postinc" "-" "-";
+  if i - 1 >= k.lo then add "postdec" (pair (c16_post_dec o it)) (sp i ^ "/" ^ sp (i - 1)) else add "postdec" "-" "-";
+  if k.nplus then add "nplus" (pt (c16_nplus o zk it)) (sp (i + kk));
   add "copy" (pt (c16_copy it)) (sp i);
   add "assign" (pt (c16_copy it)) (sp i);
   if k.conv then (add "conv" (pt (c16_copy it)) (sp i); add "convassign" (pt (c16_copy it)) (sp i))
   else (add "conv" "n/a" "n/a"; add "convassign" "n/a" "n/a");
-  if k.arrow then add "arrow" (if i >= 0 && i < n then ovz (o.c16_o_star it) else "-") (if i >= 0 && i < n then k.value i else "-");
+  if k.arrow then add "arrow" (if i >= 0 && i < n then ovz (c16_arrow o it) else "-") (if i >= 0 && i < n then k.value i else "-");
   ignore var;
   (Buffer.contents m, Buffer.contents s)
 
 (* SLList: forward iterators in three variants i(terator) c(onst) m(odify); conv = is_convertible<T2,T1> *)
-let sl_conv = function
-  | "ii" -> true | "ic" -> false | "im" -> true | "ci" -> true | "cc" -> true | "cm" -> true
-  | "mi" -> false | "mc" -> false | "mm" -> true | _ -> true
 let sl_combos = [ "ii"; "ic"; "im"; "ci"; "cc"; "cm"; "mi"; "mc"; "mm" ]
+let sl_obj c p = match c with 'i' -> C16SlIt (z_of_int p) | 'c' -> C16SlConst (z_of_int p) | _ -> iter c16_sl_inc p c16_sl_begin_modify
 let sl_cmp n i j =
   if i < 0 || j < 0 || i > n || j > n then ("BADCASE", "BADCASE") else
-  let pr = c16_sl_prims (contents n) in
-  String.concat " " (List.map (fun nm -> let o = c16_legacy_ops pr (sl_conv nm) in
-      nm ^ "=" ^ b01 (o.c16_o_eq (z_of_int i) (z_of_int j)) ^ b01 (o.c16_o_ne (z_of_int i) (z_of_int j))) sl_combos),
+  String.concat " " (List.map (fun nm -> let l = sl_obj nm.[0] i and r = sl_obj nm.[1] j in
+      nm ^ "=" ^ b01 (c16_sl_facade_eq l r) ^ b01 (c16_sl_facade_ne l r)) sl_combos),
   String.concat " " (List.map (fun nm -> nm ^ "=" ^ spec2 i j) sl_combos)
 let sl_step n var i kk =
   if i < 0 || kk < 0 || i + kk > n then ("BADCASE", "BADCASE") else
   let xs = contents n in
-  let pr = c16_sl_prims xs in
-  let o = c16_legacy_ops pr true in
-  let pt p = let p = int_of_z p in string_of_int p ^ ":" ^ (if p >= 0 && p < n then string_of_int (1000 + p) else "-") in
+  let o = c16_legacy_ops (c16_sl_prims xs) true in
+  let pt x = let p = int_of_z (c16_sl_cur x) in string_of_int p ^ ":" ^ (if p >= 0 && p < n then ovz (o.c16_o_star (c16_sl_cur x)) else "-") in
   let sp p = string_of_int p ^ ":" ^ (if p >= 0 && p < n then string_of_int (1000 + p) else "-") in
-  let step x = if var = "m" then snd (c16_slmod_inc (Z.sub x (z_of_int 1), x)) else o.c16_o_inc x in
-  let it = z_of_int i in
-  let m = "steps=" ^ pt (iter step kk it) ^ " postinc=" ^ (if i + 1 <= n then pt it ^ "/" ^ pt (step it) else "-") in
+  let it = sl_obj var.[0] i in
+  let m = "steps=" ^ pt (iter c16_sl_inc kk it) ^ " postinc=" ^ (if i + 1 <= n then pt (c16_copy it) ^ "/" ^ pt (c16_sl_inc it) else "-") in
   let s = "steps=" ^ sp (i + kk) ^ " postinc=" ^ (if i + 1 <= n then sp i ^ "/" ^ sp (i + 1) else "-") in
   (m, s)
 
@@ -203,7 +212,10 @@ let idx_case base n i0 ops =
   let o, rep, unrep = match base with
     | "vec" -> (c16_nf_ops (c16_vec_base xs) (fun p -> c16_at xs p), z_of_int, int_of_z)
     | _ -> (c16_legacy_ops (c16_dense_prims xs) true, (fun p -> c16_dense_rep (z_of_int p)), (fun x -> int_of_z (c16_dense_unrep x))) in
-  let (it, ix) = c16_idx_run o (rep 0, z_of_string i0) l in
+  let step x op raw = (match raw.[0] with
+      | 'a' -> snd (c16_idx_post_inc o x) | 'b' -> snd (c16_idx_post_dec o x)
+      | _ -> c16_idx_run o x [op]) in
+  let (it, ix) = List.fold_left2 step (rep 0, z_of_string i0) l ops in
   let p = unrep it in
   let tok p v = string_of_int p ^ ":" ^ (if p >= 0 && p < n then v else "-") in
   let (dit, dix) = c16_copy (it, ix) in
@@ -220,9 +232,10 @@ let irange_case static t =
   let ty = ity_of (List.nth t (1 + off)) in
   let from = z_of_string (List.nth t (2 + off)) and to_ = z_of_string (List.nth t (3 + off)) in
   let xs = if List.length t > 4 + off then zlist (List.nth t (4 + off)) else [] in
-  let elems = res_list ovz (c16_irange_elems ty true (nat_of_int 45) from to_) in
-  let size = c16_irange_size ty from to_ in
-  let at = join (List.init (int_of_z size) (fun i -> string_of_z (c16_irange_at ty from (z_of_int i)))) in
+  let elems = res_list ovz (c16_range_for (c16_ir_ops_src ty) (nat_of_int 45) (c16_iterrange from to_)) in
+  let size = if static then c16_sirange_size ty from to_ else c16_irange_size ty from to_ in
+  let at_fn = if static then c16_sirange_at else c16_irange_at in
+  let at = join (List.init (int_of_z size) (fun i -> string_of_z (at_fn ty from (z_of_int i)))) in
   let cont = if xs = [] then "-" else String.concat "" (List.map (fun x -> b01 (c16_irange_contains from to_ x)) xs) in
   let sl = c16_spec_irange from to_ in
   let sel = join (List.map string_of_z sl) in
@@ -246,7 +259,17 @@ let tr_case t =
   let xs = if base = "ir" then c16_spec_irange (List.nth xs0 0) (List.nth xs0 1) else xs0 in
   let f x = Z.add (Z.mul a x) b in
   let n = List.length xs in
-  let elems = res_list ovz (c16_tr_elems f xs (nat_of_int (n + 2))) in
+  let fuel = nat_of_int (n + 2) in
+  let fo = function Some v -> Some (f v) | None -> None in
+  let elems =
+    (match base with
+     | "al" -> let o = c16_legacy_ops (c16_alist_prims Z0 (z_of_int n) xs) true in
+               res_list ovz (c16_range_for (c16_tr_over o fo) fuel (c16_iterrange (c16_alist_rep Z0 Z0) (c16_alist_rep Z0 (z_of_int n))))
+     | "dyn" -> let o = c16_legacy_ops (c16_dense_prims xs) true in
+                res_list ovz (c16_range_for (c16_tr_over o fo) fuel (c16_iterrange c16_dense_begin (c16_dense_end (z_of_int n))))
+     | "ir" -> let o = c16_ir_ops_src (ity_of "i32") in
+               res_list ovz (c16_range_for (c16_tr_over o fo) fuel (c16_iterrange (List.nth xs0 0) (List.nth xs0 1)))
+     | _ -> res_list ovz (c16_tr_elems f xs fuel)) in
   let ra = base <> "list" in
   let at = if ra then join (List.init n (fun i -> ovz (c16_tr_at f xs (z_of_int i)))) else "-" in
   let sel = join (List.map (fun x -> string_of_z (f x)) xs) in
@@ -257,9 +280,19 @@ let tr_case t =
 
 let sparse_case t =
   let xs = if List.length t > 2 then zlist (List.nth t 2) else [] in
-  let pr = function Some (v, i) -> string_of_z v ^ ":" ^ string_of_z i | None -> "-" in
-  ("elems=" ^ res_list pr (c16_sparse_elems xs (fun p -> p) (nat_of_int (List.length xs + 2))),
-   "elems=" ^ join (List.map (fun (v, i) -> string_of_z v ^ ":" ^ string_of_z i) (c16_spec_sparse xs)))
+  let n = List.length xs in
+  let fuel = nat_of_int (n + 2) in
+  let pr = function (Some v, i) -> string_of_z v ^ ":" ^ string_of_z i | (None, _) -> "-" in
+  let pr2 = function Some (v, i) -> string_of_z v ^ ":" ^ string_of_z i | None -> "-" in
+  let m = (match List.nth t 1 with
+    | "idxvec" ->      (* IteratorRange<IndexedIterator<vector::iterator>> *)
+        let vo = c16_nf_ops (c16_vec_base xs) (fun p -> c16_at xs p) in
+        res_list pr (c16_range_for (c16_sparse_over (c16_idx_ops vo) c16_idx_index) fuel (c16_iterrange (Z0, Z0) (z_of_int n, z_of_int n)))
+    | "dyn" | "cdyn" | "fv3" ->   (* DenseIterator: index() is the position *)
+        let o = c16_legacy_ops (c16_dense_prims xs) true in
+        res_list pr (c16_range_for (c16_sparse_over o c16_dense_unrep) fuel (c16_iterrange c16_dense_begin (c16_dense_end (z_of_int n))))
+    | _ -> res_list pr2 (c16_sparse_elems xs (fun p -> p) fuel)) in
+  ("elems=" ^ m, "elems=" ^ join (List.map (fun (v, i) -> string_of_z v ^ ":" ^ string_of_z i) (c16_spec_sparse xs)))
 
 let switch_table = function
   | 0 -> [] | 1 -> [3] | 2 -> [1; 4; 2] | 3 -> [5; 5; 7] | 4 -> [0; 1; 2; 3] | 5 -> [9; 0; 8] | _ -> failwith "table"
@@ -337,17 +370,22 @@ let cont_case ks n arg =
   if base = "sl" then
     let sp p = string_of_int p ^ ":" ^ (if p >= 0 && p < n then string_of_int (1000 + p) else "-") in
     let o = c16_legacy_ops (c16_sl_prims (contents n)) true in
-    let pt p = let q = int_of_z p in string_of_int q ^ ":" ^ (if q >= 0 && q < n then ovz (o.c16_o_star p) else "-") in
+    let pt x = let q = int_of_z (c16_sl_cur x) in string_of_int q ^ ":" ^ (if q >= 0 && q < n then ovz (o.c16_o_star (c16_sl_cur x)) else "-") in
     let z = z_of_int in
-    tokline [ ("begin", pt (z 0), sp 0); ("cbegin", pt (z 0), sp 0); ("end", pt (z n), sp n); ("cend", pt (z n), sp n);
-              ("bmod", pt (z 0), sp 0); ("emod", pt (z n), sp n); ("itfrommod", pt (c16_copy (z arg)), sp arg);
-              ("cfrommod", pt (c16_copy (z arg)), sp arg); ("cfromit", pt (c16_copy (z arg)), sp arg) ]
+    let md = iter c16_sl_inc arg c16_sl_begin_modify in
+    tokline [ ("begin", pt (C16SlIt (z 0)), sp 0); ("cbegin", pt (C16SlConst (z 0)), sp 0); ("end", pt (C16SlIt (z n)), sp n); ("cend", pt (C16SlConst (z n)), sp n);
+              ("bmod", pt c16_sl_begin_modify, sp 0); ("emod", pt (c16_sl_end_modify (z n)), sp n); ("itfrommod", pt (c16_sl_to_it md), sp arg);
+              ("cfrommod", pt (c16_sl_to_const md), sp arg); ("cfromit", pt (c16_sl_to_const (C16SlIt (z arg))), sp arg) ]
   else
   let k = kind_of ks n in
   let o = k.ops true in
   let pt = ptok k o and sp = spec_ptok k in
   let be = [ ("begin", pt (k.rep 0), sp 0); ("cbegin", pt (k.rep 0), sp 0); ("end", pt (k.rep n), sp n); ("cend", pt (k.rep n), sp n) ] in
-  if base = "al" || base = "tr" then tokline be else
+  if base = "al" then
+    let st = z_of_int (int_of_string (List.nth kp 1)) in
+    tokline [ ("begin", pt (c16_alist_begin st), sp 0); ("cbegin", pt (c16_alist_begin st), sp 0);
+              ("end", pt (c16_alist_end st (z_of_int n)), sp n); ("cend", pt (c16_alist_end st (z_of_int n)), sp n) ] else
+  if base = "tr" then tokline be else
   let zn = z_of_int n in
   let d = [ ("begin", pt c16_dense_begin, sp 0); ("cbegin", pt c16_dense_begin, sp 0); ("end", pt (c16_dense_end zn), sp n); ("cend", pt (c16_dense_end zn), sp n);
             ("bbegin", pt c16_dense_before_begin, sp (-1)); ("cbbegin", pt c16_dense_before_begin, sp (-1)) ] in
@@ -509,10 +547,8 @@ let prim_case kind n i j =
       let e = b01 (pr.c16_p_eq (r i) (r j)) and d = string_of_z (pr.c16_p_dist (r i) (r j)) in
       tokline [ ("meqk", e, sb); ("meqm", e, sb); ("keqk", e, sb); ("mdk", d, sd); ("mdm", d, sd); ("kdk", d, sd); ("pos", string_of_z (r i), string_of_int (2 + i)) ]
   | "sl" ->
-      let pr = c16_sl_prims xs in
-      let e = b01 (pr.c16_p_eq (zi i) (zi j)) in
-      let me = b01 (c16_slmod_eq (zi (i - 1), zi i) (zi (j - 1), zi j)) in
-      tokline [ ("meqc", e, sb); ("meqi", e, sb); ("meqm", me, sb); ("ieqc", e, sb); ("ieqm", e, sb); ("ceqc", e, sb) ]
+      let e a b = b01 (c16_sl_member_equals (sl_obj a i) (sl_obj b j)) in
+      tokline [ ("meqc", e 'm' 'c', sb); ("meqi", e 'm' 'i', sb); ("meqm", e 'm' 'm', sb); ("ieqc", e 'i' 'c', sb); ("ieqm", e 'i' 'm', sb); ("ceqc", e 'c' 'c', sb) ]
   | "dyn" | "gen" ->
       let pr = if kind = "dyn" then c16_dense_prims xs else c16_generic_prims xs in
       let r p = if kind = "dyn" then c16_dense_rep (zi p) else zi p in
